@@ -28,6 +28,7 @@ type Options struct {
 	Safety             bool
 	Workers            int
 	Dump               string
+	Only               string
 }
 
 func main() {
@@ -42,6 +43,7 @@ func main() {
 	flag.BoolVar(&o.Safety, "safety", false, "generate safety obligations")
 	flag.IntVar(&o.Workers, "j", 16, "parallel solver processes")
 	flag.StringVar(&o.Dump, "dump", "", "dump SSA of a function (contract key)")
+	flag.StringVar(&o.Only, "only", "", "development: only solve obligations whose name contains this")
 	flag.Parse()
 	o.Specs = filepath.Join(o.Verif, "specs")
 	if o.Timeout == 0 {
@@ -130,7 +132,17 @@ func run(o *Options) int {
 			continue
 		}
 		ex := NewExec(ctx, fn, sp.Funcs[key], o.Safety)
+		ex.canaries = true
 		ex.Verify()
+		if o.Only != "" {
+			var keep []*Obligation
+			for _, ob := range ex.obls {
+				if strings.Contains(ob.Name, o.Only) {
+					keep = append(keep, ob)
+				}
+			}
+			ex.obls = keep
+		}
 		solver.SolveAll(sp, ex.obls, o.Workers)
 		bad += report(ex, o.Verbose)
 	}
@@ -184,6 +196,13 @@ func report(ex *Exec, verbose bool) int {
 	}
 	for _, g := range groupObls(ex.obls) {
 		status := "ok"
+		if strings.Contains(g.name, "#canary:") {
+			if len(g.fail) == 0 {
+				fmt.Printf("   VACUOUS  %s: assumptions are contradictory (assert false was proved)\n", g.name)
+				bad++
+			}
+			continue
+		}
 		if len(g.fail) > 0 {
 			status = "FAILED(" + g.fail[0].Result.Status + ")"
 			bad++
